@@ -1437,13 +1437,16 @@ def rotor_between_objects_root(X1, X2):
     if gamma > 0:
         C = 1 + gamma*(X2 * X1)
         if abs(C.value[0]) < 1E-6:
-            R = (I5eo * X21)(2).normal()
-            X3 = apply_rotor(X1, R)
-            C3 = 1 + gamma*(X2 * X3)
-            if abs((C3 * ~C3).value[0]) < 1E-6:
-                # the half turn leaves the pair in a position of the same kind
-                # (e.g. point pairs that share a point): move X1 by a fixed
-                # rotor in general position instead
+            R = (I5eo * X21)(2)
+            if abs(R) > 1E-6:
+                R = R.normal()
+                X3 = apply_rotor(X1, R)
+                C3 = 1 + gamma*(X2 * X3)
+            if abs(R) <= 1E-6 or abs((C3 * ~C3).value[0]) < 1E-6:
+                # there is no half turn to take (point pairs that share the
+                # origin), or it leaves the pair in a position of the same kind
+                # (point pairs that share a point): move X1 by a fixed rotor in
+                # general position instead
                 R = _generic_rotor
                 X3 = apply_rotor(X1, R)
             R2 = rotor_between_objects_root(X3, X2).normal()
